@@ -248,7 +248,7 @@ func cmdVC(args []string) {
 				if st.Status() != "discharged" {
 					bad++
 					if st.FailRes != nil {
-						fmt.Printf("      solver: %v\n", st.FailRes.Tried)
+						fmt.Printf("      solver: %v at %s (path %d) unsat=%d sat=%d unknown=%d\n", st.FailRes.Tried, st.FailInst.Pos, st.FailInst.PathID, st.Unsat, st.Sat, st.Unknown)
 						if st.FailRes.Model != nil && st.FailInst != nil {
 							for _, v := range st.FailInst.Vars {
 								if val, ok := st.FailRes.Model[v.Term]; ok {
